@@ -51,7 +51,7 @@ def enum_pc(tier):
             for variant in ("orig", "stable"):
                 h = (k * 2654435761 % (2 ** 32)) >> 7
                 yield {"n": n, "edges": [list(e) for e in edges], "variant": variant, "oracle": ["callable", "list"][h % 4 == 0],
-                       "perm": h % 24}
+                       "perm": h % 24, "mcv": ["n", "maxdeg", "maxdeg+1"][(h // 24) % 3]}
                 k += 1
     if tier == "thorough":
         for edges in dags(5):
@@ -61,12 +61,26 @@ def enum_pc(tier):
             k += 1
 
 
+def enum_pc_dense5(tier):
+    """5-node ground truths with 6 or 8 edges, node order = labelling order: the orientation rules that need several propagation
+    stages (Meek R2 / R3 chains) only matter here; every second one in the quick tier"""
+    k = 0
+    for edges in dags(5):
+        if len(edges) not in (6, 8):
+            continue
+        k += 1
+        if tier != "thorough" and k % 2:
+            continue
+        yield {"n": 5, "edges": [list(e) for e in edges], "variant": ["stable", "orig", "parallel"][k % 3], "oracle": "callable", "perm": 0,
+               "mcv": "maxdeg" if k % 4 == 0 else "n"}
+
+
 def gen_pc_random(rng, tier):
     n = rng.choice([5, 5, 6])
     # sparse and dense graphs: some orientation rules (Meek R3 and what it enables) only matter on dense 5-node DAGs
     _, edges = gen.rand_dag_edges(rng, n, "gnp", p=rng.choice([.3, .5, .8, .8, .9]))
     return {"n": n, "edges": [list(e) for e in edges], "variant": rng.choice(["orig", "stable", "parallel"]), "oracle": "callable",
-            "perm": rng.randrange(120)}
+            "perm": rng.randrange(120), "mcv": rng.choice(["n", "maxdeg", "maxdeg+1"])}
 
 
 def run_pc(case, drv):
@@ -81,7 +95,10 @@ def run_pc(case, drv):
     truth.add_edges_from([(names[u], names[v]) for u, v in edges])
     mg = {"nodes": list(range(n)), "edges": edges}
     spec = drv.call("cpdag_spec", g=mg)
-    tags = dict(n=n, variant=case["variant"], oracle=case["oracle"])
+    deg = [sum(1 for e in edges if v in e) for v in range(n)]
+    # the property quantifies over max_cond_vars >= maximum degree of the ground truth: the boundary value must already be enough
+    mcv = {"n": n, "maxdeg": max(deg) if deg else 0, "maxdeg+1": (max(deg) if deg else 0) + 1}[case.get("mcv", "n")]
+    tags = dict(n=n, variant=case["variant"], oracle=case["oracle"], mcv=case.get("mcv", "n"))
 
     def oracle(X, Y, Z, **kw):
         return not truth.is_dconnected(X, Y, observed=list(Z))
@@ -113,9 +130,9 @@ def run_pc(case, drv):
                 est.estimate(variant=other, max_cond_vars=0, return_type="dag", show_progress=False, n_jobs=1, **kw)
             except Exception:
                 pass
-        skel, seps = est.estimate(variant=case["variant"], max_cond_vars=n, return_type="skeleton", show_progress=False, n_jobs=1, **kw)
-        pdag = est.estimate(variant=case["variant"], max_cond_vars=n, return_type="pdag", show_progress=False, n_jobs=1, **kw)
-        dag = est.estimate(variant=case["variant"], max_cond_vars=n, return_type="dag", show_progress=False, n_jobs=1, **kw)
+        skel, seps = est.estimate(variant=case["variant"], max_cond_vars=mcv, return_type="skeleton", show_progress=False, n_jobs=1, **kw)
+        pdag = est.estimate(variant=case["variant"], max_cond_vars=mcv, return_type="pdag", show_progress=False, n_jobs=1, **kw)
+        dag = est.estimate(variant=case["variant"], max_cond_vars=mcv, return_type="dag", show_progress=False, n_jobs=1, **kw)
     except Exception as e:
         return fail(f"PC.estimate raised {type(e).__name__}: {e}", **tags)
     idx = {nm: i for i, nm in enumerate(names)}
@@ -202,6 +219,7 @@ def run_todag(case, drv):
 
 STREAMS = [
     Stream("pc_exhaustive", enum=enum_pc, run=run_pc),
+    Stream("pc_dense5", enum=enum_pc_dense5, run=run_pc),
     Stream("pc_random", gen_pc_random, run_pc, quick=400, thorough=4000),
     Stream("todag_exhaustive", enum=enum_todag, run=run_todag),
     Stream("todag_random", gen_todag, run_todag, quick=500, thorough=5000),
